@@ -8,6 +8,7 @@ import (
 	"sort"
 	"strings"
 
+	"golang.org/x/tools/go/cfg"
 	"golang.org/x/tools/go/packages"
 )
 
@@ -23,7 +24,10 @@ import (
 //   - for the untyped `X.ID` of an osm.Member X: the enclosing `case osm.ElementTypeK:` arm of a
 //     switch on X.Type, or the enclosing `if X.Type == osm.ElementTypeK`; failing that, the
 //     typed accessors X.WayID()/X.RelationID()/X.NodeID() called in the branches of the if
-//     statement whose condition holds the test. The constant-to-kind table is read from the
+//     statement whose condition holds the test; before that, the early-exit idiom decided on
+//     go/cfg: `if X.Type != osm.ElementTypeK { continue }` (return/break, `== K … else
+//     continue`, !, && on the true edge, || on the false edge): the test's block is unreachable
+//     from the start of the loop body once the edges that imply "X is K" are removed. The constant-to-kind table is read from the
 //     bodies of the osm.Member accessors (`if m.Type == ElementTypeWay { return WayID(m.ID) }`),
 //   - for a local with a single definition: that definition.
 //
@@ -241,6 +245,10 @@ func (k *fKindCtx) memberKind(info *types.Info, body ast.Node, site ast.Node, x 
 			}
 		}
 	}
+	// early-exit guard, decided on the control-flow graph
+	if t, how := k.memberKindCFG(info, chain, site, xo, isTypeOfX); t != nil {
+		return t, how
+	}
 	// typed accessors in the branches of the if statement whose condition contains the site
 	for i := len(chain) - 1; i >= 0; i-- {
 		ifs, ok := chain[i].(*ast.IfStmt)
@@ -272,6 +280,146 @@ func (k *fKindCtx) memberKind(info *types.Info, body ast.Node, site ast.Node, x 
 		break
 	}
 	return nil, ""
+}
+
+// memberKindCFG decides the early-exit idiom `if X.Type != K { continue }` (also return/break,
+// `if X.Type == K { … } else { continue }`, negations and &&/|| as go/cfg splits them): X is of
+// kind K at the site when, in the CFG of the innermost function around the site, the site's
+// block is unreachable from the start of the loop body that binds X (or from the function entry
+// when X is not a range variable) once the "X is K" edges are removed — the true edge of
+// `X.Type == K`, the false edge of `X.Type != K`. Exactly one kind must have that property.
+func (k *fKindCtx) memberKindCFG(info *types.Info, chain []ast.Node, site ast.Node, xo types.Object, isTypeOfX func(ast.Expr) bool) (*types.TypeName, string) {
+	var body *ast.BlockStmt
+	var loop *ast.RangeStmt
+	for _, n := range chain {
+		switch x := n.(type) {
+		case *ast.BlockStmt:
+			if body == nil {
+				body = x
+			}
+		case *ast.FuncLit:
+			body, loop = x.Body, nil
+		case *ast.RangeStmt:
+			for _, v := range []ast.Expr{x.Key, x.Value} {
+				if id, ok := v.(*ast.Ident); ok && info.ObjectOf(id) == xo {
+					loop = x
+				}
+			}
+		}
+	}
+	if body == nil {
+		return nil, ""
+	}
+	g := newCFG(info, body)
+	loc, ok := findNode(g, site)
+	if !ok || len(g.Blocks) == 0 {
+		return nil, ""
+	}
+	start := g.Blocks[0]
+	if loop != nil {
+		start = nil
+		for _, b := range g.Blocks {
+			if b.Kind == cfg.KindRangeBody && b.Stmt == ast.Stmt(loop) {
+				start = b
+			}
+		}
+		if start == nil {
+			return nil, ""
+		}
+	}
+	type edge struct{ from, to *cfg.Block }
+	edges := map[*types.TypeName]map[edge]string{}
+	for _, b := range g.Blocks {
+		if len(b.Succs) != 2 || len(b.Nodes) == 0 || b.Succs[0] == b.Succs[1] {
+			continue
+		}
+		cond, ok := b.Nodes[len(b.Nodes)-1].(ast.Expr)
+		if !ok {
+			continue
+		}
+		// go/cfg keeps a whole condition as one node: which kinds does each outcome imply?
+		var implied func(e ast.Expr, outcome bool) []*types.TypeName
+		implied = func(e ast.Expr, outcome bool) []*types.TypeName {
+			switch x := ast.Unparen(e).(type) {
+			case *ast.UnaryExpr:
+				if x.Op == token.NOT {
+					return implied(x.X, !outcome)
+				}
+			case *ast.BinaryExpr:
+				switch {
+				case x.Op == token.LAND && outcome, x.Op == token.LOR && !outcome:
+					return append(implied(x.X, outcome), implied(x.Y, outcome)...)
+				case x.Op == token.EQL && outcome, x.Op == token.NEQ && !outcome:
+					for _, pr := range [][2]ast.Expr{{x.X, x.Y}, {x.Y, x.X}} {
+						if isTypeOfX(pr[0]) {
+							if t := k.consts[fConstObj(info, pr[1])]; t != nil {
+								return []*types.TypeName{t}
+							}
+						}
+					}
+				}
+			}
+			return nil
+		}
+		for i, outcome := range []bool{true, false} {
+			for _, t := range implied(cond, outcome) {
+				if edges[t] == nil {
+					edges[t] = map[edge]string{}
+				}
+				word := "true"
+				if !outcome {
+					word = "false"
+				}
+				edges[t][edge{b, b.Succs[i]}] = "the " + word + " edge of " + types.ExprString(cond) + " at " + k.c.Position(cond.Pos())
+			}
+		}
+	}
+	var kinds []*types.TypeName
+	for t := range edges {
+		kinds = append(kinds, t)
+	}
+	sort.Slice(kinds, func(i, j int) bool { return kinds[i].Name() < kinds[j].Name() })
+	var found *types.TypeName
+	var how string
+	for _, t := range kinds {
+		if start == loc.b {
+			break // the site is in the first block of the body: nothing can guard it
+		}
+		seen := map[*cfg.Block]bool{start: true}
+		work := []*cfg.Block{start}
+		reached := false
+		for len(work) > 0 && !reached {
+			b := work[0]
+			work = work[1:]
+			for _, sc := range b.Succs {
+				if _, cut := edges[t][edge{b, sc}]; cut || seen[sc] {
+					continue
+				}
+				if loop != nil && sc.Kind == cfg.KindRangeLoop && sc.Stmt == ast.Stmt(loop) {
+					continue // next iteration: a new member
+				}
+				seen[sc] = true
+				if sc == loc.b {
+					reached = true
+					break
+				}
+				work = append(work, sc)
+			}
+		}
+		if !reached {
+			if found != nil {
+				return nil, "" // two kinds at once: dead code
+			}
+			found = t
+			var descs []string
+			for _, d := range edges[t] {
+				descs = append(descs, d)
+			}
+			sort.Strings(descs)
+			how = "reachable only through " + strings.Join(descs, " / ")
+		}
+	}
+	return found, how
 }
 
 // constType reports whether t is the type of the element-type constants.
